@@ -8,6 +8,7 @@ def run(tier):
         "C09: every sample list of up to three distinct samples with labels {A, B, none} (quick: 144 lists, thorough: "
         "all 225) plus 'no list', the empty list and lists naming an absent sample x all 6 orders of the input columns, "
         "on three asymmetric records. TLC checks ListOrderRelations (every permutation of the list entries yields the "
-        "correspondingly transposed expected spectrum; identical when first-appearance order is kept); the replay checks "
+        "correspondingly transposed expected spectrum; identical when first-appearance order is kept); labels containing blanks (two sharing their first word) are included; the replay runs BOTH list syntaxes for every scenario and checks "
         "the real output against the specification for every column order and with -s / --samples-file alternating.",
-        ["MCCreate_perm_quick.cfg"], ["MCCreate_perm_t1.cfg", "MCCreate_c01_quick.cfg"], [])
+        ["MCCreate_perm_quick.cfg"], ["MCCreate_perm_t1.cfg", "MCCreate_c01_quick.cfg"], [],
+        env={"CREATE_BOTH_SYNTAX": "1"})
